@@ -817,7 +817,7 @@ pub fn exec(case: &Case) -> Line {
 const LITS: &[&str] = &["a", "b", "ab", "a b", "%41", "é", "a{b}c", "v1", ".", "A", "Ab", "x", "É"];
 // variable names: with letter-case variants of each other (two names that differ only in case ARE different names)
 const VARS: &[&str] = &["x", "y", "type", "X", "Type"];
-const METHODS: &[&str] = &["GET", "PUT", "DELETE", "get"];
+const METHODS: &[&str] = &["GET", "PUT", "DELETE", "get", "M-SEARCH", "VERSION.CONTROL"];
 
 #[derive(Clone, Debug, PartialEq)]
 enum Seg {
@@ -1183,7 +1183,7 @@ pub fn gen_large(opts: &Opts) -> Vec<Case> {
     let mut out = vec![];
     // 1. deep templates: alternating literal / variable, depth D; requests: the
     //    witness, one segment short, one segment long, a wrong literal deep down
-    let depths: &[usize] = if opts.thorough { &[15, 16, 17, 31, 32, 33, 63, 64, 65, 129] } else { &[16, 17, 33, 65] };
+    let depths: &[usize] = if opts.thorough { &[15, 16, 17, 31, 32, 33, 63, 64, 65, 129, 255, 256, 257, 513] } else { &[16, 17, 33, 65, 257] };
     for &d in depths {
         let segs: Vec<String> = (0..d).map(|i| if i % 2 == 0 { format!("l{}", i) } else { format!("{{v{}}}", i) }).collect();
         let wit: Vec<String> = (0..d).map(|i| if i % 2 == 0 { format!("l{}", i) } else { format!("x{}", i) }).collect();
@@ -1209,6 +1209,13 @@ pub fn gen_large(opts: &Opts) -> Vec<Case> {
             w2[d - 1] = "other".into();
             paths.push(format!("/{}", w2.join("/")));
         }
+        out.push(Case { chain: one.clone(), eps, paths, methods: vec!["GET".into(), "PUT".into()], versions: vec![None] });
+    }
+    // 1b. long wildcard tails: /files/{rest:.*} with 15 .. 1025 remaining segments
+    let tails: &[usize] = if opts.thorough { &[15, 16, 17, 255, 256, 257, 258, 1023, 1024, 1025, 4097] } else { &[17, 255, 256, 257, 1025] };
+    {
+        let eps = vec![ep("tail".into(), "GET", "/files/{rest:.*}".into(), all.clone())];
+        let paths: Vec<String> = tails.iter().map(|&n| format!("/files{}", "/d".repeat(n))).collect();
         out.push(Case { chain: one.clone(), eps, paths, methods: vec!["GET".into(), "PUT".into()], versions: vec![None] });
     }
     // 2. wide sibling sets under one node
@@ -1241,8 +1248,17 @@ pub fn gen_large(opts: &Opts) -> Vec<Case> {
     // 4. many methods on one path (extension tokens): 405 lists all of them
     let ms: &[usize] = if opts.thorough { &[8, 9, 16, 17, 33, 65] } else { &[9, 17, 33] };
     for &m in ms {
-        let eps: Vec<EpSpec> = (0..m).map(|i| ep(format!("m{}", i), &format!("M{:02}X", i), "/mm/{x}".into(), all.clone())).collect();
-        let mut methods: Vec<String> = (0..=m).map(|i| format!("M{:02}X", i)).collect();
+        // extension tokens, some with the punctuation RFC 9110 allows in a token
+        let tok = |i: usize| -> String {
+            match i % 6 {
+                1 => format!("M-{:02}", i),
+                2 => format!("V{:02}.CTL", i),
+                3 => format!("X{:02}!#$%&'*+^_`|~", i),
+                _ => format!("M{:02}X", i),
+            }
+        };
+        let eps: Vec<EpSpec> = (0..m).map(|i| ep(format!("m{}", i), &tok(i), "/mm/{x}".into(), all.clone())).collect();
+        let mut methods: Vec<String> = (0..=m).map(tok).collect();
         methods.push("GET".into());
         out.push(Case { chain: one.clone(), eps, paths: vec!["/mm/a".into(), "/mm".into()], methods, versions: vec![None] });
     }
